@@ -35,15 +35,14 @@ def make(name, rng):
                 return dict(est=est, gen=lambda n: (cc_rows(rng, n, d), None), pf=True, sup=False, kind="smart")
             mods = [_fz(rng, rho=r, beta=1.0) for r in rhos]
             est = artlib.DeepARTMAP(mods)
+            dsl = [rng.choice([1, 2]) for _ in range(nl)]
             if name == "DeepSup":
                 ncls = rng.choice([1, 2, 3])
                 def gen(n):
-                    X = cc_rows(rng, n, d)
-                    return ([X] * nl, np.array([rng.randrange(ncls) for _ in range(n)]))
+                    return ([cc_rows(rng, n, di) for di in dsl], np.array([rng.randrange(ncls) for _ in range(n)]))
                 return dict(est=est, gen=gen, pf=True, sup=True, kind="deep")
             def gen(n):
-                X = cc_rows(rng, n, d)
-                return ([X] * nl, None)
+                return ([cc_rows(rng, n, di) for di in dsl], None)
             return dict(est=est, gen=gen, pf=True, sup=False, kind="deep")
         if name in ("FALCON", "TDFALCON"):
             ds = [rng.choice([1, 2]), 1, 1]
